@@ -52,7 +52,7 @@ MUTANTS = [
     ("m29", "C14", RP, "                            if check_for_ignore_directive(\n                                code,\n                                rule.as_span().start(),", "                            if check_for_ignore_directive(\n                                code,\n                                rule.as_span().end(),"),
     ("m30", "C11", RP, "                    if !macro_of_interest(&macro_name_str, config)", "                    if macro_of_interest(&macro_name_str, config)"),
     ("m31", "C11", RP, "            if macro_name == config_macro.name.as_str()", "            if macro_name != config_macro.name.as_str()"),
-    ("m32", "C13", RP, "                                    span.start(),\n                                    span.start_pos().line_col().0,\n                                    span.start_pos().line_col().1,\n                                ));\n\n                                ref_kind = LogRefKind::String;",
+    ("m32", "C03", RP, "                                    span.start(),\n                                    span.start_pos().line_col().0,\n                                    span.start_pos().line_col().1,\n                                ));\n\n                                ref_kind = LogRefKind::String;",
      "                                    span.end(),\n                                    span.start_pos().line_col().0,\n                                    span.start_pos().line_col().1,\n                                ));\n\n                                ref_kind = LogRefKind::String;"),
     ("m33", "C17", CP, "        .map_or(subject_pos, |c| subject_pos + c.len_utf8());", "        .map_or(subject_pos, |_c| subject_pos + 1);"),
     ("m34", "C12", CP, r'Regex::new(r"^\[ref: ([0-9]{1,10})\]")', r'Regex::new(r"^\[ref: ([0-9]{1,9})\]")'),
